@@ -99,6 +99,8 @@ type ProxyCfg struct {
 	BatchSize   int    `json:"batch_size,omitempty"`
 	BatchDelay  int    `json:"batch_delay_us,omitempty"`
 	GetEAbs     bool   `json:"gete_abs,omitempty"`
+	// ExtraArgs are appended to memproxy's command line (option combinations).
+	ExtraArgs []string `json:"extra_args,omitempty"`
 }
 
 // Name renders a short configuration class name.
@@ -283,6 +285,7 @@ func startProxyOnce(bin string, cfg ProxyCfg) (*Proxy, error) {
 		p.MainSock = filepath.Join(p.Dir, "main.sock")
 		args = append(args, "--use-domain-socket", "--sock-path", p.MainSock)
 	}
+	args = append(args, cfg.ExtraArgs...)
 	p.StderrLog = filepath.Join(p.Dir, "stderr.log")
 	f, err := os.Create(p.StderrLog)
 	if err != nil {
